@@ -59,7 +59,9 @@ def _base(ep, rng):
     if ep == "naive_update":
         return {"ep": ep, "n": n, "y": "ok:%d" % rng.randrange(2, 6), "X": rng.choice(["none", "ok"])}
     if ep == "required":
-        return {"ep": ep, "n": n, "phase": rng.choice(["fit", "predict"]), "fitfh": fh, "fh": fh}
+        fh3 = "r:" + ",".join(str(v) for v in sorted(rng.sample(range(1, 6), rng.choice([1, 2, 3, 3]))))
+        return {"ep": ep, "n": n, "phase": rng.choice(["fit", "predict"]), "fitfh": fh3, "fh": fh3,
+                "strategy": rng.choice(["direct", "multioutput", "dirrec"])}
     if ep == "split":
         kind = rng.choice(["sliding", "expanding", "single", "cutoff"])
         return {"ep": ep, "kind": kind, "y": "ok:%d" % n, "fh": fh, "wl": "i:%d" % rng.randrange(1, 5), "step": "i:%d" % rng.randrange(1, 3),
@@ -85,6 +87,9 @@ def _base(ep, rng):
     raise ValueError(ep)
 
 
+_FORM = [0]
+
+
 def _faults(c, rng):
     """(name, mutated context) for every single fault applicable to this context's entry point"""
     ep = c["ep"]
@@ -94,6 +99,9 @@ def _faults(c, rng):
     def put(name, **kw):
         d = copy.deepcopy(c)
         d.update(kw)
+        if kw.get("fh") in ("dup", "empty", "frac"):
+            _FORM[0] += 1
+            d["fhform"] = _FORM[0] % 30          # container form of the malformed horizon (30 = lcm of the form counts)
         d["fault"] = name
         out.append(d)
     if ep in ("naive_fit", "split", "tts", "evaluate", "gridsearch", "reduce", "composite"):
@@ -130,6 +138,13 @@ def _faults(c, rng):
         else:
             put("fh:different", fh="r:4")
             put("fh:different", fh="r:1,2,3,4")
+            # a proper part of the fitted horizon, or the fitted horizon and more, is still another horizon
+            steps = [int(x) for x in c["fitfh"][2:].split(",")]
+            if len(steps) > 1:
+                put("fh:different", fh="r:" + ",".join(map(str, steps[1:])))
+                put("fh:different", fh="r:" + ",".join(map(str, steps[:-1])))
+                put("fh:different", fh="r:%d" % steps[len(steps) // 2])
+            put("fh:different", fh="r:" + ",".join(map(str, steps + [steps[-1] + 1])))
             # the same numbers meant as absolute time points are a different horizon
             put("fh:different-kind", fh="a:" + c["fitfh"][2:])
     if ep == "composite" and c["kind"] == "stacking":
@@ -222,6 +237,7 @@ def gen_cases(tier, rng):
         import os as _os
         cases.append({"ep": "static", "fn": (cls + "." if cls else "") + fn + "@" + _os.path.basename(path), "fault": None})
     reps = 12 if tier == "quick" else 60
+    _FORM[0] = rng.randrange(30)
     heavy = {"gridsearch", "evaluate", "composite", "reduce"}
     for ep in EPS:
         for _ in range(reps if ep not in heavy else max(1, reps // 3)):
@@ -238,6 +254,7 @@ def run_real(c):
         import importlib
         importlib.reload(EC)
         return EC.extract().get(c["fn"], "MISSING")
+    E._FH_FORM = c.get("fhform", 0)
     try:
         return E.ENTRY[c["ep"]](c)
     except Exception as e:
